@@ -297,8 +297,10 @@ NeverStuck(s) == StuckTasks(s) = {}
 \* Woken (safety form of "always completes if the peer makes progress"): in a QUIESCENT state -- the loop is idle and a
 \* further dispatch would do nothing -- no task is left parked on something the kernel reports ready, no runnable is
 \* left in the queue without the executor being pinged, and a runnable task is in the queue.
-\* Every behaviour of the transition system is finite up to stuttering (each step consumes a bound), so "every task
-\* whose fd is ready is eventually polled again" is equivalent to this predicate holding in every state.
+\* The liveness form is checked separately on small bounds (FairSpec, mc/asyncio_live*.cfg): Live_C17_Woken (a parked
+\* task whose fd is reported ready does not stay parked) and Live_C17_Settles (the loop is quiescent again and again, i.e.
+\* it does not spin); given Live_C17_Settles, "every ready task is eventually polled again" is this predicate holding in
+\* every quiescent state.
 Quiescent(s) == s.pc = "idle" /\ ~s.pinged /\ \A e \in Ends : ~Fires(s, e)
 Woken(s) ==
   /\ \A t \in Tasks : s.ts[t] = "runnable" => \E i \in DOMAIN s.runq : s.runq[i] = t
